@@ -20,6 +20,10 @@
 //!        conn.recv.get_next_message() runs; the received message becomes a new body
 //!   U<b>:<idx>  UnmarshalContext::new(body.get_fds(), ..).read_unixfd via <UnixFd as Unmarshal> on bytes holding idx
 //!   A<b>:<j>    the j-th descriptor stored in the body's bytes, through body.parser() and the typed API
+//!   G<b>:<k>    the dynamic API: body.parser().get_param() over the leading params holding at most the first k stored
+//!               descriptors (rounded down to a param boundary, reported as "slots"); the descriptors are moved out of the
+//!               decoded Param trees (arrays, structs, dict entries, variants) into variables of the caller
+//!   M<b>        msg.unmarshall_all() (consumes the message; Message.raw_fds is put back into an equal body on success)
 //!   C<h> clone   Y<h> dup   T<h> take_raw_fd   X<h> drop
 //! Operations naming something that does not exist are skipped ("invalid"), as in the model.
 //!
@@ -207,7 +211,7 @@ fn type_end(sig: &[u8], i: usize) -> usize {
     }
 }
 /// walk one complete type at sig[si..], collecting the u32 stored at every 'h'
-fn walk(sig: &[u8], si: usize, buf: &[u8], off: &mut usize, bo: ByteOrder, out: &mut Vec<u32>) -> Option<()> {
+fn walk(sig: &[u8], si: usize, buf: &[u8], off: &mut usize, bo: ByteOrder, out: &mut Vec<u32>, offs: &mut Vec<usize>) -> Option<()> {
     match sig[si] {
         b'y' => *off += 1,
         b't' => {
@@ -217,6 +221,7 @@ fn walk(sig: &[u8], si: usize, buf: &[u8], off: &mut usize, bo: ByteOrder, out: 
         b'h' => {
             align(off, 4);
             out.push(rd_u32(buf, *off, bo)?);
+            offs.push(*off);
             *off += 4
         }
         b'u' => {
@@ -238,7 +243,7 @@ fn walk(sig: &[u8], si: usize, buf: &[u8], off: &mut usize, bo: ByteOrder, out: 
                 *off = end;
             } else {
                 while *off < end {
-                    walk(sig, si + 1, buf, off, bo, out)?;
+                    walk(sig, si + 1, buf, off, bo, out, offs)?;
                 }
             }
         }
@@ -246,7 +251,7 @@ fn walk(sig: &[u8], si: usize, buf: &[u8], off: &mut usize, bo: ByteOrder, out: 
             align(off, 8);
             let mut j = si + 1;
             while sig[j] != b')' && sig[j] != b'}' {
-                walk(sig, j, buf, off, bo, out)?;
+                walk(sig, j, buf, off, bo, out, offs)?;
                 j = type_end(sig, j);
             }
         }
@@ -258,7 +263,7 @@ fn walk(sig: &[u8], si: usize, buf: &[u8], off: &mut usize, bo: ByteOrder, out: 
             if inner.is_empty() {
                 return None;
             }
-            walk(&inner, 0, buf, off, bo, out)?;
+            walk(&inner, 0, buf, off, bo, out, offs)?;
         }
         _ => return None,
     }
@@ -266,6 +271,30 @@ fn walk(sig: &[u8], si: usize, buf: &[u8], off: &mut usize, bo: ByteOrder, out: 
         return None;
     }
     Some(())
+}
+/// indices stored in the body, start offset of every top-level param, descriptor slots per top-level param
+fn body_layout3(msg: &MarshalledMessage) -> Option<(Vec<u32>, Vec<usize>, Vec<usize>)> {
+    body_layout4(msg).map(|x| (x.0, x.1, x.2))
+}
+/// ... and the byte offset of every stored descriptor index
+fn body_layout4(msg: &MarshalledMessage) -> Option<(Vec<u32>, Vec<usize>, Vec<usize>, Vec<usize>)> {
+    let sig = msg.get_sig().as_bytes();
+    let buf = msg.get_buf();
+    let bo = msg.body.byteorder();
+    let mut out = Vec::new();
+    let mut starts = Vec::new();
+    let mut per = Vec::new();
+    let mut offs = Vec::new();
+    let mut off = 0;
+    let mut si = 0;
+    while si < sig.len() {
+        starts.push(off);
+        let before = out.len();
+        walk(sig, si, buf, &mut off, bo, &mut out, &mut offs)?;
+        per.push(out.len() - before);
+        si = type_end(sig, si);
+    }
+    Some((out, starts, per, offs))
 }
 fn body_layout(msg: &MarshalledMessage) -> Option<(Vec<u32>, Vec<usize>)> {
     let sig = msg.get_sig().as_bytes();
@@ -277,7 +306,7 @@ fn body_layout(msg: &MarshalledMessage) -> Option<(Vec<u32>, Vec<usize>)> {
     let mut si = 0;
     while si < sig.len() {
         starts.push(off);
-        walk(sig, si, buf, &mut off, bo, &mut out)?;
+        walk(sig, si, buf, &mut off, bo, &mut out, &mut Vec::new())?;
         si = type_end(sig, si);
     }
     Some((out, starts))
@@ -944,7 +973,8 @@ fn parse_shape(msg: &MarshalledMessage, starts: &[usize], pi: usize, sh: &ShapeR
 
 fn do_parse(w: &mut World, b: usize, j: usize) -> String {
     let Some(Some(br)) = w.bods.get(b) else { return "\"res\":\"invalid\"".into() };
-    let Some((idx, starts)) = body_layout(&br.msg) else { return "\"res\":\"HARNESS unreadable body\"".into() };
+    let Some((idx, starts, _, offs)) = body_layout4(&br.msg) else { return "\"res\":\"HARNESS unreadable body\"".into() };
+    let nfds = br.msg.body.get_fds().len();
     if j >= idx.len() {
         return "\"res\":\"invalid\"".into();
     }
@@ -955,7 +985,14 @@ fn do_parse(w: &mut World, b: usize, j: usize) -> String {
     let mut res: Result<UnixFd, String> = Err("slot not found".to_string());
     for sh in shapes {
         if j < seen + sh.n {
-            res = if sh.shape == 'p' || sh.shape == 'q' {
+            let sibling_bad = (seen..seen + sh.n).any(|x| x != j && idx.get(x).map(|i| *i as usize >= nfds).unwrap_or(false));
+            res = if sibling_bad {
+                // another descriptor of the same value has an index beyond the list (the sender's descriptor was
+                // taken before sending), so the typed container read fails as a whole; the model reads per slot:
+                // read this slot alone, at its own offset in the body
+                let mut ctx = UnmarshalContext::new(br.msg.body.get_fds(), br.msg.body.byteorder(), br.msg.get_buf(), offs[j]);
+                UnixFd::unmarshal(&mut ctx).map_err(|e| format!("{:?}", e))
+            } else if sh.shape == 'p' || sh.shape == 'q' {
                 // one top-level param per element: read only the one asked for
                 let one = ShapeRec { shape: 's', n: 1, ord: vec![0] };
                 parse_shape(&br.msg, &starts, pi + (j - seen), &one).map(|mut v| v.swap_remove(0))
@@ -979,6 +1016,158 @@ fn do_parse(w: &mut World, b: usize, j: usize) -> String {
             format!("\"res\":\"h:{}\"", w.hnd.len() - 1)
         }
         Err(e) => format!("\"res\":\"err\",\"detail\":\"{}\"", e.replace('"', "'")),
+    }
+}
+
+// ---------------------------------------------------------------- the dynamic Param API
+
+/// move the descriptors out of a decoded Param, in wire order (`ord`: for a top-level dict, the
+/// order in which its entries were marshalled; a HashMap does not remember it)
+fn take_fds(p: Param<'_, '_>, ord: Option<&[usize]>, out: &mut Vec<UnixFd>) -> Result<(), String> {
+    use rustbus::params::Container;
+    match p {
+        Param::Base(Base::UnixFd(u)) => out.push(u),
+        Param::Base(_) => {}
+        Param::Container(c) => match c {
+            Container::Array(a) => {
+                for v in a.values {
+                    take_fds(v, None, out)?;
+                }
+            }
+            Container::Struct(v) => {
+                for x in v {
+                    take_fds(x, None, out)?;
+                }
+            }
+            Container::Variant(v) => take_fds(v.value, None, out)?,
+            Container::Dict(mut d) => {
+                let ord = ord.ok_or("dict without a recorded order")?;
+                for i in ord {
+                    let v = d.map.remove(&Base::String(format!("k{}", i))).ok_or("missing dict key")?;
+                    take_fds(v, None, out)?;
+                }
+            }
+            _ => return Err("borrowed container in a decoded value".into()),
+        },
+    }
+    Ok(())
+}
+
+/// for every top-level param of the body: the marshalling order of a dict's entries, if it is one
+fn param_orders(shapes: &[ShapeRec]) -> Vec<Option<Vec<usize>>> {
+    let mut v = Vec::new();
+    for sh in shapes {
+        if sh.shape == 'p' || sh.shape == 'q' {
+            for _ in 0..sh.n {
+                v.push(None);
+            }
+        } else if sh.shape == 'm' {
+            v.push(Some(sh.ord.clone()));
+        } else {
+            v.push(None);
+        }
+    }
+    v
+}
+
+/// G<b>:<k>: body.parser().get_param() over the leading params that hold at most the first k stored
+/// descriptors; every decoded descriptor becomes a variable of the caller
+fn do_get_param(w: &mut World, b: usize, k: usize) -> String {
+    let Some(Some(br)) = w.bods.get(b) else { return "\"res\":\"invalid\"".into() };
+    let Some((_, _, per)) = body_layout3(&br.msg) else { return "\"res\":\"HARNESS unreadable body\"".into() };
+    let total: usize = per.iter().sum();
+    if k > total {
+        return "\"res\":\"invalid\"".into();
+    }
+    let mut np = 0;
+    let mut slots = 0;
+    while np < per.len() && slots + per[np] <= k {
+        slots += per[np];
+        np += 1;
+    }
+    let orders = param_orders(br.shapes.as_deref().unwrap_or(&[]));
+    let mut got: Vec<UnixFd> = Vec::new();
+    let mut err: Option<String> = None;
+    {
+        // (the Param that get_param returns borrows the parser: each one is taken apart before the next call)
+        let mut parser = br.msg.body.parser();
+        for i in 0..np {
+            match parser.get_param() {
+                Ok(p) => {
+                    if let Err(e) = take_fds(p, orders.get(i).and_then(|x| x.as_deref()), &mut got) {
+                        return format!("\"res\":\"HARNESS {}\"", e);
+                    }
+                }
+                Err(e) => {
+                    err = Some(format!("{:?}", e));
+                    break;
+                }
+            }
+        }
+        if err.is_some() {
+            got.clear();
+        }
+        // on Err the values decoded so far are dropped here
+    }
+    match err {
+        None => {
+            let first = w.hnd.len();
+            let n = got.len();
+            for u in got {
+                w.hnd.push(Some(u));
+            }
+            format!(
+                "\"res\":\"hs:{}\",\"slots\":{}",
+                (first..first + n).map(|x| x.to_string()).collect::<Vec<_>>().join(","),
+                slots
+            )
+        }
+        Some(e) => format!("\"res\":\"err\",\"slots\":{},\"detail\":\"{}\"", slots, e.replace('"', "'")),
+    }
+}
+
+/// M<b>: msg.unmarshall_all() (consumes the message). On success Message.raw_fds (the very handles of
+/// the message) goes back into a body with the same bytes, so that body b lives on as in the model;
+/// the decoded params give up their descriptors to variables of the caller. On Err the message is gone.
+fn do_unmarshall_all(w: &mut World, b: usize) -> String {
+    if w.bods.get(b).map(|x| x.is_none()).unwrap_or(true) {
+        return "\"res\":\"invalid\"".into();
+    }
+    let br = w.bods[b].take().unwrap();
+    let buf = br.msg.get_buf().to_vec();
+    let sig = br.msg.get_sig().to_string();
+    let bo = br.msg.body.byteorder();
+    let shapes = br.shapes;
+    let orders = param_orders(shapes.as_deref().unwrap_or(&[]));
+    match br.msg.unmarshall_all() {
+        Ok(m) => {
+            let mut got = Vec::new();
+            let params = m.params;
+            let raw_fds = m.raw_fds;
+            let mut bad = None;
+            for (i, p) in params.into_iter().enumerate() {
+                if let Err(e) = take_fds(p, orders.get(i).and_then(|x| x.as_deref()), &mut got) {
+                    bad = Some(e);
+                }
+            }
+            let msg = MarshalledMessage {
+                body: rustbus::message_builder::MarshalledMessageBody::from_parts(buf, 0, raw_fds, sig, bo),
+                dynheader: m.dynheader,
+                typ: m.typ,
+                flags: m.flags,
+            };
+            w.bods[b] = Some(BodyRec { msg, shapes });
+            if let Some(e) = bad {
+                return format!("\"res\":\"HARNESS {}\"", e);
+            }
+            let first = w.hnd.len();
+            let n = got.len();
+            for u in got {
+                w.hnd.push(Some(u));
+            }
+            format!("\"res\":\"hs:{}\"", (first..first + n).map(|x| x.to_string()).collect::<Vec<_>>().join(","))
+        }
+        Err(e) => format!("\"res\":\"err\",\"detail\":\"{}\"", format!("{:?}", e).replace('"', "'")),
     }
 }
 
@@ -1072,6 +1261,17 @@ fn do_op(w: &mut World, op: &str) -> String {
                 _ => "\"res\":\"BADOP\"".into(),
             }
         }
+        "G" => {
+            let parts: Vec<&str> = arg.split(':').collect();
+            match (parts.first().and_then(|x| x.trim().parse::<usize>().ok()), parts.get(1).and_then(|x| x.trim().parse::<usize>().ok())) {
+                (Some(b), Some(k)) => do_get_param(w, b, k),
+                _ => "\"res\":\"BADOP\"".into(),
+            }
+        }
+        "M" => match one() {
+            Some(b) => do_unmarshall_all(w, b),
+            None => "\"res\":\"BADOP\"".into(),
+        },
         "C" => match one().and_then(|h| w.hnd.get(h)).and_then(|x| x.as_ref()).map(|u| u.clone()) {
             Some(u) => {
                 w.hnd.push(Some(u));
